@@ -17,8 +17,15 @@ class TracerBroken(Exception):
     """The tracer could not project the implementation's state (machinery failure, exit 2)."""
 
 
-def digest(v, mode):
+BLANK_OK = set()        # prog mode: full names of the enumeration lines, whose blank value is stored as None
+
+
+def digest(v, mode, key=None):
     if mode == "prog":
+        if v is None and key in BLANK_OK:
+            return 0
+        if getattr(type(v), "_hv_bit", False):
+            return v.value                 # an enumeration line of a generated program
         if isinstance(v, bool) or not isinstance(v, int):
             return repr(v)
         return v
@@ -136,7 +143,7 @@ class Tracer(object):
                     return orig(self_, key)
                 val = orig(self_, key)
                 tr.names.add(full)
-                tr.cur["reads"].append([kind, full, digest(val, tr.mode)])
+                tr.cur["reads"].append([kind, full, digest(val, tr.mode, full)])
                 return val
             return __getitem__
         self._patch(F.FormAccessor, "__getitem__", wrap_fa_get)
@@ -217,7 +224,7 @@ class Tracer(object):
         self.names.add(name)
         out = None
         if c["stored"] is not None and c["stored"][0] == name and (last is None or esc is None):
-            out = {"o": "val", "v": digest(c["stored"][1], self.mode)}
+            out = {"o": "val", "v": digest(c["stored"][1], self.mode, name)}
         elif last is not None:
             cn = type(last).__name__
             if cn == "UnmetDependency":
@@ -261,7 +268,7 @@ class Tracer(object):
                     "idM": list(s._input_dependencies._met),
                     "forms": sorted(s.forms.keys()), "specs": sorted(s._input_map.keys()),
                     "fmap": sorted(s._field_map.keys()), "solving": sorted(s._solving_fields),
-                    "vals": {k: digest(v, self.mode) for k, v in s._v.values.items()},
+                    "vals": {k: digest(v, self.mode, k) for k, v in s._v.values.items()},
                     "unimpl": list(s._unimplemented_fields), "refused": bool(s._refused_input)}
         except AttributeError as e:
             raise TracerBroken("cannot project solver state: %s" % e)
@@ -281,7 +288,7 @@ class Tracer(object):
                 else:
                     cfg0[name] = "?"
         self.cfg0 = cfg0
-        self.vals0 = {k: digest(v, self.mode) for k, v in solver._v.values.items()}
+        self.vals0 = {k: digest(v, self.mode, k) for k, v in solver._v.values.items()}
         self.fmap0 = sorted(solver._field_map.keys())
         self.has_prompt = solver._prompt is not None
 
